@@ -24,6 +24,8 @@ enum DK {
     Empty,
 }
 
+const NOT_UTF8: &str = "\u{1}not-utf-8\u{1}";
+
 fn rules_text(u: &mut Choices, k: RK, i: usize) -> String {
     match k {
         RK::Pass => [format!("rule ok{} when kind == 'app' {{\n  b == 'x'\n}}\n", i), format!("rule ok{} {{\n  b == 'x'\n}}\n", i), format!("rule ok{}a {{\n  b exists\n}}\nrule ok{}b when zz exists {{\n  a == 1\n}}\n", i, i)][u.below(3)].clone(),
@@ -44,7 +46,9 @@ fn rules_text(u: &mut Choices, k: RK, i: usize) -> String {
             format!("rule {{\n  a == 1\n}}\n"),
             format!("rule br{} {{ a == 'unterminated }}\n", i),
             format!("let x = \nrule br{} {{ a == 1 }}\n", i),
-        ][u.below(6)]
+            // a file that is not UTF-8 (the marker is replaced by the bytes ff fe when it is written)
+            format!("{} rule br{} {{\n  a == 1\n}}\n", NOT_UTF8, i),
+        ][u.below(7)]
         .clone(),
         RK::EvalErr => [format!("rule ee{} {{\n  a empty\n}}\n", i), format!("rule ee{} {{\n  let v = parse_int(b)\n  %v == 1\n}}\n", i), format!("rule ee{} {{\n  %nosuchvar == 1\n}}\n", i)][u.below(3)].clone(),
     }
@@ -128,7 +132,11 @@ fn expected_validate(rules: &[String], data: &[String], missing: bool) -> (Expec
         return (Expect::ErrorNot0Or19, why);
     }
     let any_broken = parsed.iter().any(|p| !p);
-    let e = if !any_broken {
+    // an unreadable rules file: a parse failure (5) or an error exit, never success
+    let unreadable = rules.iter().any(|r| r.contains(NOT_UTF8));
+    let e = if unreadable {
+        Expect::NonZero
+    } else if !any_broken {
         Expect::Exact(if any_fail { 19 } else { 0 })
     } else if any_fail {
         Expect::NonZero
@@ -151,7 +159,19 @@ fn argv_and_run(c: &VCase, via_binary: bool) -> (Vec<String>, i32, String) {
     let mut rpaths = vec![];
     for (i, r) in c.rules.iter().enumerate() {
         let p = dir.join(format!("rules/r{}.guard", i));
-        write_file(&p, r);
+        if r.contains(NOT_UTF8) {
+            let mut bytes = vec![];
+            for (k, part) in r.split(NOT_UTF8).enumerate() {
+                if k > 0 {
+                    bytes.extend_from_slice(&[0xff, 0xfe]);
+                }
+                bytes.extend_from_slice(part.as_bytes());
+            }
+            let _ = std::fs::create_dir_all(p.parent().unwrap());
+            std::fs::write(&p, bytes).expect("write scratch file");
+        } else {
+            write_file(&p, r);
+        }
         rpaths.push(p.to_string_lossy().to_string());
     }
     let mut dpaths = vec![];
@@ -455,7 +475,7 @@ pub fn replay(case: &J) -> CaseResult {
 
 pub fn run(tier: Tier, seed: u64) -> i32 {
     let spec = EvidenceSpec {
-        rule: "validate: 1-3 rules files of kind {all-PASS, some-FAIL, all-SKIP, blank, syntactically broken (6 shapes), evaluation error (3 shapes)} x 1-3 data files of kind {compliant, non-compliant, not applicable (every guarded rule SKIPs), malformed (4 shapes), empty} in generated order x invocation {plain, --structured json/yaml/junit/sarif, --payload plain/structured, data on stdin, rules and data as directories, a missing path}. The expected exit code is computed from facts established through other code paths: `parse-tree` decides whether a rules text parses, run_checks decides the status of every (rules, data) pair alone; then 0 / 19 / 5 / any non-zero / error-not-0-or-19 by the rule of the property statement. Stage 'validate-binary' runs the same through the real cfn-guard binary (process exit status, `main`'s Err -> 255). test: rules {ok, broken, comment-only} x spec {ok, malformed, unknown status word} x {all expectations met, one mismatch} x {single file, --dir with 0-3 further guard files (sorting before / after, in sub-directories; good, with a mismatch, broken rules, malformed spec, without tests)} x {console, json, yaml, junit}: 0 / 7 / non-zero. Non-trivial: the pairs of the run have at least two different individual outcomes; distinct by hash of all texts and the invocation.".into(),
+        rule: "validate: 1-3 rules files of kind {all-PASS, some-FAIL, all-SKIP, blank, syntactically broken (6 shapes) or not UTF-8, evaluation error (3 shapes)} x 1-3 data files of kind {compliant, non-compliant, not applicable (every guarded rule SKIPs), malformed (4 shapes), empty} in generated order x invocation {plain, --structured json/yaml/junit/sarif, --payload plain/structured, data on stdin, rules and data as directories, a missing path}. The expected exit code is computed from facts established through other code paths: `parse-tree` decides whether a rules text parses, run_checks decides the status of every (rules, data) pair alone; then 0 / 19 / 5 / any non-zero / error-not-0-or-19 by the rule of the property statement. Stage 'validate-binary' runs the same through the real cfn-guard binary (process exit status, `main`'s Err -> 255). test: rules {ok, broken, comment-only} x spec {ok, malformed, unknown status word} x {all expectations met, one mismatch} x {single file, --dir with 0-3 further guard files (sorting before / after, in sub-directories; good, with a mismatch, broken rules, malformed spec, without tests)} x {console, json, yaml, junit}: 0 / 7 / non-zero. Non-trivial: the pairs of the run have at least two different individual outcomes; distinct by hash of all texts and the invocation.".into(),
         assumptions: vec!["`well-formed data` for the expectation is decided by serde_yaml accepting the text (the data kinds are chosen so that all loaders agree)".into()],
     };
     execute("C06", tier, seed, spec, &replay, &|run: &Session| {
